@@ -54,6 +54,49 @@ def build():
     log("build ok in %.1fs" % (time.time() - t0))
 
 
+_built_race = False
+_race_lock = None
+
+
+def build_race():
+    """the same driver built with Go's race detector (C14 only): the detector is the recorder of accesses the hooks do not see"""
+    global _built_race
+    if _built_race:
+        return
+    build()
+    h = os.path.join(VERIF, "harness") if TREE == "/repo" else os.path.join(OUT, "harness")
+    t0 = time.time()
+    p = subprocess.run(["go", "build", "-race", "-tags", "verif", "-o", os.path.join(BIN, "vdrive_race"), "./cmd/vdrive"],
+                       cwd=h, env=GOENV, capture_output=True, text=True)
+    if p.returncode != 0:
+        raise Infra("race build of the harness failed:\n" + p.stdout + p.stderr)
+    _built_race = True
+    log("race build ok in %.1fs" % (time.time() - t0))
+
+
+def race_reports(stderr):
+    """DATA RACE reports of the race detector whose two accesses are both in code of the server (go-nfsd or its journal), as
+    trace events. A report with an access made by the harness itself (snapshots and monitors read server state) is not one."""
+    evs = []
+    for blk in stderr.split("WARNING: DATA RACE")[1:]:
+        blk = blk.split("==================")[0]
+        parts = re.split(r"\n\s*\n", blk.strip())
+        acc = [p for p in parts if re.match(r"\s*(Read|Write|Previous read|Previous write|Atomic|Previous atomic)", p.strip())]
+        if len(acc) < 2:
+            continue
+        tops = []
+        for a in acc[:2]:
+            fr = [ln.strip() for ln in a.splitlines()[1:] if ln.strip() and not ln.startswith("      ")]
+            fr = [f for f in fr if not f.startswith("runtime.") and not f.startswith("sync.") and not f.startswith("sync/atomic.")]
+            tops.append(fr[0] if fr else "?")
+        if any("verif/harness" in t for t in tops):
+            continue
+        if not all(("github.com/mit-pdos/go-nfsd/" in t) or ("github.com/mit-pdos/go-journal/" in t) for t in tops):
+            continue
+        evs.append({"ev": "race", "what": " <-> ".join(re.sub(r"\(\)$", "", t.replace("github.com/mit-pdos/", "")) for t in tops), "detail": blk.strip()[:1500]})
+    return evs
+
+
 # ---------------------------------------------------------------------------
 # known findings
 
@@ -615,14 +658,21 @@ def run_job(job, scratch):
     if job.get("kind") == "apalache":
         return run_apalache_job(job, scratch)
     trace = os.path.join(scratch, job["name"] + ".ndjson")
-    cmd = [os.path.join(BIN, "vdrive")] + job["driver"] + ["-out", trace]
+    cmd = [os.path.join(BIN, "vdrive_race" if job.get("race") else "vdrive")] + job["driver"] + ["-out", trace]
     t0 = time.time()
+    env = dict(os.environ)
+    if job.get("race"):
+        env["GORACE"] = "exitcode=0 halt_on_error=0"
     try:
-        p = subprocess.run(cmd, capture_output=True, text=True, timeout=job.get("driver_timeout", 900), cwd=scratch)
+        p = subprocess.run(cmd, capture_output=True, text=True, timeout=job.get("driver_timeout", 900), cwd=scratch, env=env)
     except subprocess.TimeoutExpired:
         raise Infra("driver timed out: " + " ".join(cmd))
     if p.returncode != 0 and not server_died(p, trace):
         raise Infra("driver failed (%d): %s\n%s" % (p.returncode, " ".join(cmd), (p.stdout + p.stderr)[-3000:]))
+    if job.get("race"):
+        with open(trace, "a") as f:
+            for ev in race_reports(p.stderr):
+                f.write(json.dumps(ev, separators=(",", ":")) + "\n")
     tdrv = time.time() - t0
     out, st = run_tlc(job["module"], job["cfg"], scratch, env={"TRACE": trace}, timeout=job.get("tlc_timeout", 1200),
                       xmx=job.get("xmx", "4g"))
@@ -910,6 +960,11 @@ def plan(prop, tier, seed, known):
             jobs.append(seq_job("restart%d" % i, seed * 100 + i, "many,longnames,mix,names,data", 4 if q else 8, 250 if q else 500, av,
                                 disk=12000, dumpeach=40, extra=["-snapeach", "10"]))
         jobs.append(probe_job(prop, av))
+        # concurrent clients over more files than the inode cache holds (evictions and refills under concurrency)
+        for i in range(1 if q else 8):
+            jobs.append({"name": "concmany%d" % i, "kind": "lin", "also": ["C10"],
+                         "driver": ["conc", "-seed", str(seed * 100 + 60 + i), "-segs", "3" if q else "6", "-steps", "8", "-clients", str(2 + i % 2),
+                                    "-avoid", av, "-many", "130"]})
         jobs += design_jobs("Icache", ["Icache"], [], [("Icache_nodrop", "Coherent"), ("Icache_nowrite", "Coherent")], q)
         # the per-directory name cache and the slot choice that depends on it
         jobs += design_jobs("DirCache", ["DirCache"], ["DirCache_big"], [("DirCache_keep", "Coherent"), ("DirCache_nodel", "Coherent")], q)
@@ -1005,6 +1060,13 @@ def plan(prop, tier, seed, known):
             jobs.append({"name": "locks%d" % i, "module": "LockTrace.tla", "cfg": "LockTrace.cfg",
                          "driver": ["conc", "-access", "-seed", str(seed * 100 + i), "-segs", "8" if q else "30", "-steps", "12",
                                     "-clients", str(2 + i % 3), "-avoid", av]})
+        # the same histories under Go's race detector: it observes the accesses the inode hooks do not (shared structures
+        # outside the inodes); its reports about server code become trace events that LockTrace rejects
+        build_race()
+        for i in range(6 if q else 24):
+            jobs.append({"name": "race%d" % i, "module": "LockTrace.tla", "cfg": "LockTrace.cfg", "race": True, "driver_timeout": 1800,
+                         "driver": ["conc", "-access", "-seed", str(seed * 100 + 50 + i), "-segs", "9" if q else "24", "-steps", "12",
+                                    "-clients", str(2 + i % 3), "-avoid", av] + (["-many", "140"] if i % 2 == 1 else [])})
     elif prop == "C19":
         n = 4 if q else 24
         for i in range(n):
